@@ -647,7 +647,7 @@ def run_real(spec):
             hold = gw.newchannel()
             hold.setcallback(lambda item: time.sleep(0.8))
             lw = gw.remote_exec("import os\nside = channel.receive()\nside.send('hold the receiver')\n"
-                                "for i in range(200):\n    channel.send(('last words', i))\n" + ("os._exit(0)\n" if run % 2 else ""))
+                                "for i in range(200):\n    channel.send(('last words', i, b'w' * (7000 if i % 2 else 10)))\n" + ("os._exit(0)\n" if run % 2 else ""))
             lw.send(hold)
             if run % 2 == 0:
                 time.sleep(0.1)
@@ -661,9 +661,9 @@ def run_real(spec):
             except BaseException as e:  # noqa
                 words.append(f"{type(e).__name__}: {e}")
             res.count("last_words_runs")
-            if words != [("last words", i) for i in range(200)]:
+            if words != [("last words", i, b"w" * (7000 if i % 2 else 10)) for i in range(200)]:
                 res.violation(f"items-written-before-the-peer-was-gone-lost:{spec['spec']}",
-                              f"{label}: {len(words)} of 200 items arrived ({'worker called os._exit' if run % 2 else 'gateway told to exit'} while the receiver thread was busy); tail {short(words[-2:], 120)}")
+                              f"{label}: {len(words)} of 200 items arrived ({'worker called os._exit' if run % 2 else 'gateway told to exit'} while the receiver thread was busy); tail {short([w[:2] if isinstance(w, tuple) else w for w in words[-2:]], 120)}")
             res.count("runs")
             res.count("real_runs")
             res.case(core.h64("real", spec["spec"], run, nchan, nthreads, nitems, mode))
